@@ -44,6 +44,7 @@ from ..core.coordinate_systems import Cartesian, Face, Barycentric, FaceTriangle
 from ..core.coordinate_transforms import face_to_barycentric, barycentric_to_face
 from ..geometry.spherical_triangle import SphericalTriangleShape
 from ..math import vec3, quat
+from .. import _verif
 
 class PolyhedralProjection:
     """
@@ -163,6 +164,10 @@ class PolyhedralProjection:
         A, B, C = spherical_triangle
         cache_key = (tuple(A), tuple(B), tuple(C))
         
+        if _verif.ENABLED:
+            _verif.emit({'ev': 'cache', 'cache': 'constants', 'key': cache_key,
+                         'hit': cache_key in self._inverse_triangle_cache})
+
         if cache_key not in self._inverse_triangle_cache:
             triangle_shape = SphericalTriangleShape(spherical_triangle)
             c1 = vec3.create()
